@@ -288,6 +288,153 @@ fn fastvec_ops<E: Elem, const PRE: usize, const STEPS: usize, const MASK: u32>()
     }
 }
 
+use zipora::system::CpuFeatures;
+static CPU_NONE: CpuFeatures = CpuFeatures {
+    has_sse41: false,
+    has_sse42: false,
+    has_avx: false,
+    has_avx2: false,
+    has_avx512f: false,
+    has_avx512vl: false,
+    has_avx512bw: false,
+    has_avx512vpopcntdq: false,
+    has_bmi1: false,
+    has_bmi2: false,
+    has_popcnt: false,
+    has_lzcnt: false,
+    has_tzcnt: false,
+    has_prefetchw: false,
+    has_neon: false,
+    has_crc32: false,
+    has_crypto: false,
+    has_sve: false,
+    has_sve2: false,
+    l1_cache_size: 32 * 1024,
+    l2_cache_size: 256 * 1024,
+    l3_cache_size: 8 * 1024 * 1024,
+    cache_line_size: 64,
+    logical_cores: 1,
+    physical_cores: 1,
+    vendor: String::new(),
+    model: String::new(),
+    optimization_tier: 1,
+    simd_tier: 0,
+};
+
+/// Replacement for `zipora::system::cpu_features::get_cpu_features`: the value the real detector
+/// produces on a CPU without any optional feature (`CpuFeatures::new()` + tier 1 / simd tier 0).
+/// The real detector (raw_cpuid, available_parallelism, OnceLock) is not the subject of C10.
+pub fn cpu_none() -> &'static CpuFeatures {
+    &CPU_NONE
+}
+
+/// Plain-data element `W` bytes wide (no drop glue), so that a handful of elements already make
+/// `FastVec::insert`/`remove` take their bulk path (tail >= 64 bytes: temp buffer + two `fast_copy`
+/// calls) instead of `ptr::copy`. Three of its bytes are derived from the payload; `val` checks
+/// that they still belong together (a torn or half-moved element is reported).
+#[derive(Clone, Copy)]
+pub struct Wide<const W: usize> {
+    b: [u8; W],
+}
+impl<const W: usize> Elem for Wide<W> {
+    const TRACKED: bool = false;
+    fn mk(v: u8) -> Self {
+        let mut b = [0u8; W];
+        b[W / 2] = !v;
+        b[W - 1] = v.wrapping_add(1);
+        b[0] = v;
+        Wide { b }
+    }
+    fn val(&self) -> u8 {
+        assert!(
+            self.b[W / 2] == !self.b[0] && self.b[W - 1] == self.b[0].wrapping_add(1),
+            "element bytes torn (first/middle/last byte of one element no longer match)"
+        );
+        self.b[0]
+    }
+}
+
+/// PRE pushes, then one insert or one remove at index AT (AT = 255: symbolic index) — with wide
+/// elements the shifted tail is above the 64-byte bulk threshold.
+fn fastvec_bulk<E: Elem, const PRE: usize, const AT: usize, const INSERT: bool>() {
+    let mut v: FastVec<E> = FastVec::new();
+    let mut m = Model::new();
+    let mut k = 0;
+    while k < PRE {
+        let x: u8 = vany();
+        let r = v.push(E::mk(x));
+        assert!(r.is_ok(), "push failed");
+        forget(r);
+        m.push(x);
+        k += 1;
+    }
+    let at = if AT == 255 { small(PRE) } else { AT };
+    let x: u8 = vany();
+    let tail_bytes;
+    if INSERT {
+        tail_bytes = if at <= PRE { (PRE - at) * core::mem::size_of::<E>() } else { 0 };
+        let r = v.insert(at, E::mk(x));
+        if at > m.n {
+            assert!(r.is_err(), "insert past the end not reported");
+        } else {
+            assert!(r.is_ok(), "insert failed");
+            m.insert(at, x);
+        }
+        forget(r);
+    } else {
+        tail_bytes = if at < PRE { (PRE - at - 1) * core::mem::size_of::<E>() } else { 0 };
+        let r = v.remove(at);
+        if at >= m.n {
+            assert!(r.is_err(), "remove out of range not reported");
+            forget(r);
+        } else {
+            let want = m.remove(at);
+            match r {
+                Ok(g) => assert!(g.val() == want, "remove returned the wrong element"),
+                Err(e) => {
+                    forget(e);
+                    panic!("remove failed")
+                }
+            }
+        }
+    }
+    same_slice(v.as_slice(), &m);
+    // one more push after the shift: the vector is still usable and the length is right
+    let y: u8 = vany();
+    let r = v.push(E::mk(y));
+    assert!(r.is_ok(), "push after the bulk shift failed");
+    forget(r);
+    m.push(y);
+    same_slice(v.as_slice(), &m);
+    zcover!(tail_bytes >= 64, "the shifted tail is at or above the 64-byte bulk threshold");
+    zcover!(tail_bytes > 256 || core::mem::size_of::<E>() < 128, "the shifted tail is above 256 bytes (128-byte elements)");
+}
+
+macro_rules! c10_fastvec_bulk {
+    ($name:ident, $tier:ident, $unwind:literal, $w:literal, $pre:literal, $at:literal, $ins:literal) => {
+        zv_harness! {
+            name: $name,
+            prop: "C10",
+            tier: $tier,
+            unwind: $unwind,
+            stubs: [alloc::fmt::format => crate::common::stubs::fmt_format,
+                    zipora::system::cpu_features::get_cpu_features => crate::c10_vecs::cpu_none,
+                    std::arch::x86_64::__cpuid_count => crate::common::stubs::cpuid_zero],
+            targets: "containers::FastVec::{insert, remove} bulk path for element types without drop glue and a shifted tail >= 64 bytes (temporary Vec<u8> + memory::simd_ops::fast_copy twice -> SimdMemOps::copy_nonoverlapping, scalar tier), + push, as_slice, drop",
+            bounds: "element = W-byte plain-data struct (instance: W), PRE pushes of symbolic payloads (instance: PRE <= 7), then ONE insert (INSERT=true) or remove at index AT (255 = symbolic index 0..=PRE, out-of-range included), then one push; CPU modelled without vector extensions (scalar copy kernel; the vector kernels are C14's)",
+            oracle: "as_slice() equals the fixed-array Vec model after the shift and after the following push; every element's first/middle/last byte still belong together; remove returns the model's element; out-of-range index returns Err and changes nothing",
+            body: { crate::common::stubs::native_tier(cpu_none); fastvec_bulk::<Wide<$w>, $pre, $at, $ins>() }
+        }
+    };
+}
+c10_fastvec_bulk!(c10_fastvec_bulk_w32_pre4_insert_anyat, thorough, 10, 32, 4, 255, true);
+c10_fastvec_bulk!(c10_fastvec_bulk_w32_pre4_remove_anyat, quick, 10, 32, 4, 255, false);
+c10_fastvec_bulk!(c10_fastvec_bulk_w128_pre4_insert_at0, quick, 10, 128, 4, 0, true);
+c10_fastvec_bulk!(c10_fastvec_bulk_w128_pre4_insert_at1, quick, 10, 128, 4, 1, true);
+c10_fastvec_bulk!(c10_fastvec_bulk_w128_pre5_remove_at0, quick, 10, 128, 5, 0, false);
+c10_fastvec_bulk!(c10_fastvec_bulk_w128_pre6_insert_anyat, thorough, 10, 128, 6, 255, true);
+c10_fastvec_bulk!(c10_fastvec_bulk_w128_pre7_remove_anyat, thorough, 10, 128, 7, 255, false);
+
 macro_rules! c10_fastvec {
     ($name:ident, $tier:ident, $unwind:literal, $elem:ty, $pre:literal, $steps:literal, $mask:literal) => {
         zv_harness! {
